@@ -5,11 +5,13 @@ S=$(readlink -f "$1"); N=$(basename "$S")
 W=/tmp/vs-$N-$$
 git -C /repo worktree add -q "$W" HEAD || exit 2
 cd "$W"
-export PYTHONPATH="$W/src" PYTHONWARNINGS=ignore
+export PYTHONPATH="$W/src:$W" PYTHONWARNINGS=ignore
+# the test session start generates test/dataset/ormatic_interface.py, which some demonstrations import
+timeout 300 /venv/bin/python -m pytest --collect-only -q -p no:cacheprovider >/dev/null 2>&1
 timeout 300 /venv/bin/python "$S/demo.py" >/tmp/vs-$N-$$.un 2>&1; un=$?
 if git apply "$S/patch.diff" 2>/tmp/vs-$N-$$.ap; then ap=0; else ap=1; fi
-timeout 300 /venv/bin/python "$S/demo.py" >/tmp/vs-$N-$$.pa 2>&1; pa=$?
 t=$(timeout 900 /venv/bin/python -m pytest -q -p no:cacheprovider --timeout=900 2>&1 | tail -1)
+timeout 300 /venv/bin/python "$S/demo.py" >/tmp/vs-$N-$$.pa 2>&1; pa=$?
 cd /; git -C /repo worktree remove --force "$W"; git -C /repo worktree prune
 echo "{\"seed\":\"$N\",\"applies\":$((1-ap)),\"demo_unpatched_exit\":$un,\"demo_patched_exit\":$pa,\"tests\":\"$t\"}"
 rm -f /tmp/vs-$N-$$.*
